@@ -18,7 +18,7 @@ from vlib.monitor import OpTimeout, fmt_exc, numerical_failure, time_limit
 from vlib.ref import pd_info
 
 PROPERTY = "C07"
-TIERS = {"quick": {"shards": 8, "budget_s": 40}, "thorough": {"shards": 16, "budget_s": 600}}
+TIERS = {"quick": {"shards": 8, "budget_s": 50}, "thorough": {"shards": 16, "budget_s": 600}}
 RULE = (
     "fitted problem (xy linear/nonlinear with y / x / correlated / model-relative sources, hist with Poisson likelihood; fixed subsets; both backends) x "
     "{covariance, errors, correlation, profile of every free parameter, asymmetric errors, 1/2-sigma contour of a parameter pair, error band at float/int/outside x}; "
@@ -53,7 +53,7 @@ ANCHORS = [
 
 def floors(tier):
     return {
-        "comparisons": {"cov=2Hinv": 60, "errors=sqrt-diag": 60, "cor=normalised": 60, "profile-point": 150, "asymmetric-rise": 40, "contour-point-rise": 40, "error-band": 60, "adapter.cov=2*errordef*Hinv": 8, "cov=2Hinv.after-fix": 15, "errors=sqrt-diag.after-fix": 15},
+        "comparisons": {"cov=2Hinv": 40, "errors=sqrt-diag": 40, "cor=normalised": 40, "profile-point": 100, "asymmetric-rise": 30, "contour-point-rise": 30, "error-band": 40, "adapter.cov=2*errordef*Hinv": 8, "cov=2Hinv.after-fix": 15, "errors=sqrt-diag.after-fix": 15},
         "ops": ["do_fit", "profile", "asymmetric", "contour", "error_band"],
         "reach": ["%s:%s" % a for a in ANCHORS],
         "strata": ["iminuit", "scipy", "fixed", "xy", "hist", "int-x-band", "outside-range-band", "errordef-0.5", "errordef-1.0", "limited-inactive"],
